@@ -66,6 +66,9 @@ func (a *sideEffectActor) GetOutbox(c context.Context, r *http.Request) (vocab.A
 
 // GetInbox delegates to the FederatingProtocol.
 func (a *sideEffectActor) GetInbox(c context.Context, r *http.Request) (vocab.ActivityStreamsOrderedCollectionPage, error) {
+	if a.s2s == nil {
+		return nil, fmt.Errorf("cannot get the inbox: the Actor was created without a FederatingProtocol")
+	}
 	return a.s2s.GetInbox(c, r)
 }
 
